@@ -482,10 +482,15 @@ class FitBase(FileIOMixin, object):
 
     @data.setter
     def data(self, new_data):
+        _previous_data_container = self._data_container
         self._set_new_data(new_data)
         # validate cost function
         _data_and_cost_compatible, _reason = self._cost_function.is_data_compatible(self.data)
         if not _data_and_cost_compatible:
+            if _previous_data_container is not None:
+                # keep the fit as it was: put the previous container back (data nodes are marked for update again)
+                _previous_data_container._on_error_change_callback = None  # re-installed by _set_new_data
+                self._set_new_data(_previous_data_container)
             raise ValueError("Fit data and cost function are not compatible: %s" % _reason)
         self._set_new_parametric_model()
         self._param_model._on_error_change_callback = self._on_error_change
